@@ -129,6 +129,19 @@ CHECKS = {
         note="Single-fault hypothesis; sqlite journal semantics trusted (real library used); death emulated in-process by snapshotting "
              "file+journal (thorough tier adds real os._exit subprocess runs); prior content of the database: two fixed layouts.",
         technique="exhaustive fault enumeration on the real code with transaction-protocol contracts checked per trace + static body contracts"),
+    'C16': dict(
+        category='proof',
+        text="The real pyGAPS-DH (slit/cylinder/sphere), BJH and Dollimore-Heal recurrences are executed on symbolic volume/pressure "
+             "arrays of 2..5 points with arbitrary increasing thickness and Kelvin functions: reported widths are proved to be "
+             "2(r_K+t) at consecutive measured pressures and increasing, distribution x width increment == pore volume; with the real "
+             "zero-thickness model pore volumes are proved to be the successive volume increments (sum = total change) and a single "
+             "step gives a single peak; psd_mesoporous is proved to request liquid volume / relative pressure, to select the points "
+             "inside the limits and to end the cumulative curve at the volume at the highest pressure used; Kelvin equations, the KJS "
+             "offset and the meniscus table are checked against the published forms (sympy / exhaustive).",
+        design_ref='§3 C16',
+        note="Shape-bounded (n <= 5, thorough 6); numpy array primitives executed by real numpy on object arrays; sympy trusted; real "
+             "thickness models other than zero are arbitrary functions here.",
+        technique="symbolic execution of the real recurrences + z3; sympy for the Kelvin equations"),
 }
 
 NOT_YET = {
